@@ -41,11 +41,25 @@ PROP = dict(
                    'PrettyPrint walk (model of toString panic sites, cross-checked against the real PrettyPrint on every input) over ANY C13.WF pool '
                    'with correctly typed values returns normally within (size+2)^2 frames; (9) shape_checks_sound - the hypotheses MergeInv and CallShape '
                    'are evaluated by the replay oracle on the model run of EVERY input (clause shape-hypothesis) and the executable checks imply them; '
-                   'tree_passes_no_panic_WF composes connectNamedObjArgs and the resolve loop as ParseAML runs them. NOT proved: that '
-                   'parseDeferredBlocks never ends in .panic, that the first pass establishes the shape hypotheses (MergeInv, CallShape) of the later passes, that any tree pass stays within its fuel, the composition into parseAML (C12.total), '
+                   'tree_passes_no_panic_WF composes connectNamedObjArgs and the resolve loop as ParseAML runs them. '
+                   '(10) deferred_block_no_panic_WF: parseDeferred(obj) - the strict re-parse (parseModeAllBlocks) of ONE deferred block with everything it calls '
+                   '(parseObjectArgs, parseArgs, parseArg, parseStrictTermArg, parseTarget, parseNextObject, parseNamePathOrMethodCall with the lookup, the method-call '
+                   'conversion, ArgAt(target,1).value.(uint64) and the argument loop, parseFieldElements) never ends in .panic and keeps C13.WF after success and failure; '
+                   'hypotheses (evaluated by the oracle on the model state in front of EVERY parseDeferred of every input, deferred_block_checks_sound): well-formed state, '
+                   'no Method on the scope stack, every Method has its flags or is unnamed and encloses neither the root nor the block, the block object attached under a non-Method. '
+                   '(11) deferred_block_total: the same parseDeferred(obj) with fuel >= 16*len+15 (fuelFor is) RETURNS - no .panic and no .outOfFuel: one block terminates, recursion at most 16 frames per table byte. '
+                   '(12) parse_prefix_no_panic_WF: the COMPOSITION of (4)/(5)/(9): ParseAML up to and excluding parseDeferredBlocks (init; first pass; connectNamedObjArgs; resolve loop; '
+                   'parseAML = parsePrefix >>= afterPrefix) never ends in .panic, leaves C13.WF after success and failure and hands MergeInv to parseDeferredBlocks, with MergeInv DERIVED '
+                   'from the first pass by theorem (a second reading of the first-pass functions with slot frames that tracks every Scope object until its name and its block are attached) - '
+                   'only table/pool-level hypotheses remain: len + 2^28 <= 2^32, a well-formed pool with the size budget whose root is a parentless scope block, whose freed slots are nameless '
+                   '(newObject keeps the name of a reused slot) and that holds no Scope object with this table\'s handle; these are decidable (prefix_pool_checks_sound) and the driver counts on how many '
+                   'replayed tables they hold (statistics prefix_pool_hyp_holds / prefix_pool_hyp_fails: all of them in every run so far); the first-pass part is total with fuel >= 13*len+13; '
+                   'the per-input MergeInv check of shapeAudit keeps running as a cross-check. '
+                   'NOT proved: the walk parseDeferredBlocks over all blocks (that the hypotheses of one block hold again for the next), '
+                   'that the first pass establishes the other shape hypotheses (CallShape, methods-have-flags, the block facts) of the later passes, that any tree pass stays within its fuel, the composition into parseAML (C12.total), '
                    'tree_WF after success/failure of the whole ParseAML - these are decided per input by the oracle on the real parser and by '
                    'model-vs-implementation correspondence over the boundary list and the mutational stream.',
-        level_note='Partial: totality (no panic, no stack overflow, no hang) and tree well-formedness are theorems for the first pass (first_pass_total, first_pass_WF; any well-formed pool); every tree pass except parseDeferredBlocks is proved panic-free and WF-preserving (some under explicit shape hypotheses, none with its fuel bound); parseDeferredBlocks and the composition into parseAML are NOT theorems; '
+        level_note='Partial: totality (no panic, no stack overflow, no hang) and tree well-formedness are theorems for the first pass (first_pass_total, first_pass_WF; any well-formed pool); every tree pass is proved panic-free and WF-preserving (some under explicit shape hypotheses checked per input, none with its fuel bound), the whole prefix of ParseAML in front of the deferred blocks is composed with MergeInv derived from the first pass (parse_prefix_no_panic_WF: only pool-level hypotheses), the strict pass per deferred block (deferred_block_no_panic_WF for any fuel, deferred_block_total with fuel >= 16*len+15); the walk over all deferred blocks and the composition into parseAML are NOT theorems; '
                    'they need the object-tree invariant of C13 with state-dependent operation contracts threaded through ~25 call sites '
                    'and are covered by differential testing of a faithful executable Lean port (0 mismatches on 10^5-10^6 inputs incl. '
                    'the 3577-object DSDT tree) plus the property oracle on the real code, decided on the implementation\'s observation alone: '
@@ -61,5 +75,5 @@ PROP = dict(
                    'Quot.sound), the theorem statements, the harness and child-process runner, Go toolchain. Genuine defects found by '
                    'this check and repaired in /repo: relocation cycle/stack overflow, Connection buffer past the table, '
                    'attachSiblingsAsArgs corrupting the grandparent list on a successful parse, PrettyPrint nil dereference after a failed '
-                   'parse, 8-bit MultiNamePath length.',
+                   'parse, 8-bit MultiNamePath length, ByteList length underflow behind an overrun package end (bytes parsed twice).',
 )
